@@ -31,6 +31,7 @@ def main():
     ap.add_argument('name')
     ap.add_argument('--also', default='')
     ap.add_argument('--origin', default='')
+    ap.add_argument('--strengthening', default='')
     a = ap.parse_args()
     stage = pathlib.Path(a.stage)
     pid, v = a.name[:3], a.name[3:]
@@ -102,6 +103,8 @@ def main():
         'checks': caught,
         'caught': any(e['violation'] for e in caught.values()),
     }
+    if a.strengthening:
+        meta['strengthening'] = a.strengthening
     (dst / 'meta.json').write_text(json.dumps(meta, indent=1) + '\n')
     print(f'{a.name}: caught={meta["caught"]} ' + ' '.join(f'{c}:rc={e["rc"]}:{e.get("signature")}' for c, e in caught.items()))
     return 0
